@@ -349,6 +349,13 @@ def job_init():
         # constructor arguments read back (when accepted)
         zc = _resolved(ctx, kw["atcorenums"])
         atn = _resolved(ctx, kw["atnums"])
+        if zc is None and _resolved(ctx, kw["charge"]) is None:
+            # (a given charge makes the charge setter read the core charges, which stores the lazy default: that is the
+            # recorded finding, not this clause)
+            # core charges that were not given stay *derived*: the constructor must not store a copy of the atomic numbers,
+            # or a later assignment of atnums would no longer be followed (observe() above worked on a clone)
+            isn, _ = field_terms(obj.fields["_atcorenums"])
+            ctx.prove(f"{target}::post.core-charges-that-were-not-given-are-not-stored-by-the-constructor", isn)
         if zc is not None:
             ctx.prove(f"{target}::post.core-charges-read-back", same(ob["atcorenums"], zc))
         elif atn is not None:
